@@ -26,6 +26,12 @@ type CliOpts struct {
 func GenCliReq(r *RNG, k int, o CliOpts) (CliReq, Lane) {
 	q := CliReq{Method: Pick(r, cliMethods...), Path: Pick(r, genPaths...), Host: Pick(r, "example.com", "localhost:8443", "a.b.c:443"), ErrAt: -1, StartAfter: -1, BodyMode: "none"}
 	q.Fields = append(q.Fields, HF{"x-rid", fmt.Sprint(k)})
+	if r.Intn(12) == 0 {
+		// a request header list larger than the largest frame the server accepts: the client has to continue it
+		for j := 0; j < 2+r.Intn(5); j++ {
+			q.Fields = append(q.Fields, HF{fmt.Sprintf("x-bigreq-%d", j), strings.Repeat(string(rune('k'+j)), 3000+r.Intn(3000))})
+		}
+	}
 	nf := r.Intn(6)
 	for i := 0; i < nf; i++ {
 		name := Pick(r, "x-a", "x-b", "accept", "accept-language", "x-long-header-name-that-goes-on", "x-1", "referer", "authorization", "x_under", "cache-control")
@@ -82,6 +88,12 @@ func GenCliReq(r *RNG, k int, o CliOpts) (CliReq, Lane) {
 		}
 		seen[n] = true
 		resp.Fields = append(resp.Fields, HF{n, Pick(r, respValues...)})
+	}
+	if r.Intn(12) == 0 {
+		// a response header list of several frames' worth
+		for j := 0; j < 2+r.Intn(5); j++ {
+			resp.Fields = append(resp.Fields, HF{fmt.Sprintf("x-big-%d", j), strings.Repeat(string(rune('a'+j)), 3000+r.Intn(3000))})
+		}
 	}
 	resp.Fields = append(resp.Fields, HF{"x-rid", fmt.Sprint(k)})
 	bs := []int{0, 1, 100, 5000, 16384, 16385, 40000, 100000}
